@@ -5,7 +5,9 @@
 //!   insn   <seed> <n_random> <n_words>  C13  instruction immediate encoders vs independent tables
 //!   calib  <seed> <n_per_template>      C13  prints (asm, reference encoding) for llvm-mc calibration
 //!   range  <seed> <n_random>            C12  relocation range tables vs independent psABI table
+//!   table                                 C12  prints the independent range table (JSON lines)
 //!   probe  <arch> <r_type> <value_hex> <word_hex>   single write_to_buffer call (by-hand reproducer)
+//!   roundtrip <arch> <Kind> <value> [word]          write_to_value / read_value / write again
 //!
 //! Output: JSON lines on stdout. {"t":"count",...} per sub-space, {"t":"mismatch",...} per
 //! mismatch class (count + up to 3 samples). Panics inside wild code are caught per case.
@@ -61,6 +63,11 @@ fn main() {
         "calib" => insn::calib(num(2, 0), num(3, 8) as usize),
         "range" => range::run(num(2, 0), num(3, 10_000)),
         "table" => range::table(),
+        "roundtrip" => {
+            let arch = args.get(2).map(String::as_str).unwrap_or("");
+            let kind = args.get(3).map(String::as_str).unwrap_or("");
+            insn::roundtrip(arch, kind, num(4, 0), num(5, 0));
+        }
         "probe" => {
             let arch = args.get(2).map(String::as_str).unwrap_or("");
             range::probe(arch, num(3, 0) as u32, num(4, 0), num(5, 0));
